@@ -26,6 +26,7 @@ def seed(t):
 
 def run(ctx):
     repo = ctx.repo
+    rules.borrow(ctx, "C08", funcs=["forsys.edge.BigEdge.__post_init__"], minimum=2, because="the sign of a pressure row follows the order of BigEdge.own_cells")
     ctx.config("method='lagrange_pressure' (the documented call), allow_negatives default")
 
     # ================================================================== one row per internal interface
